@@ -264,6 +264,13 @@ func (p *uPacketPacker) appendInitialPacketPayload(buffer *packetBuffer, header 
 		}
 	}
 
+	// [UQUIC] Header protection samples 16 bytes starting 4 bytes after the start of the
+	// packet number: like appendLongHeaderPacket, pad a payload that is too short for that
+	// (a PING-only probe behind a planned flight), or no receiver can open the packet.
+	if short := 4 - int(pnLen) - len(uPayload); short > 0 {
+		uPayload = append(uPayload, make([]byte, short)...)
+	}
+
 	header.Length = pnLen + protocol.ByteCount(sealer.Overhead()) + protocol.ByteCount(len(uPayload))
 
 	startLen := len(buffer.Data)
